@@ -28,7 +28,7 @@ ASSUMPTIONS = ["M/dt counts as the integer k when |M/dt - k| <= 1e-9*max(1, M/dt
                "ratios between 1e-9 and 1e-6 relative distance from an integer are not generated (ambiguous)",
                "time to maturity compared within 16 ulp of (T-1)*dt"]
 PROBES = ["ratio_rounds_up", "ratio_rounds_down", "ratio_exact", "ratio_non_integer", "resim_by_other_derivative",
-          "negative_index", "two_underliers", "hedge_grid", "feature_grid", "dt_changed_on_same_objects"]
+          "negative_index", "two_underliers", "hedge_grid", "feature_grid", "dt_changed_on_same_objects", "maturity_changed_on_same_object"]
 DTS = [1 / 250, 1 / 365, 1 / 252, 1 / 52, 1 / 12, 0.1, 0.05, 0.01, 0.004, 0.02, 1 / 360, 0.25,
        # step sizes whose reciprocal is not an integer (weekly on an actual/365 clock, 1/365.25, ...)
        7 / 365, 0.3, 1 / 365.25, 0.03, 2 / 250, 0.15, 1 / 3.5]
@@ -84,6 +84,7 @@ def generate(rng):
         M, how = _maturity(rng, rng.choice([dt, dt2]))
         two = {"id": "d2", "kind": "TwoAsset", "underliers": ["p0", "p1"], "params": {"maturity": M}, "_how": how}
     ops = []
+    cur_dt = dt
     order = ["d0", "d1"] + (["d2"] if two else [])
     for _ in range(rng.randint(2, 8)):
         ops.append({"op": "simulate", "target": rng.choice(order), "n_paths": rng.npaths([1, 2, 3]), "torch_seed": rng.seed31(),
@@ -92,6 +93,10 @@ def generate(rng):
             # same objects, other calendar: the step size is changed and the maturities are re-expressed in the new step,
             # keeping their number of steps (so every shape stays what it was)
             ops[-1]["new_dt"] = rng.choice([x for x in DTS if x != dt])
+            cur_dt = ops[-1]["new_dt"]
+        if rng.chance(0.25):
+            # the same contract object gets another maturity (shorter or longer) before it is simulated again
+            ops[-1]["new_maturity"] = _maturity(rng, cur_dt)[0]
     world = {"primaries": prims, "derivatives": derivs, "models": [], "criteria": [], "hedgers": []}
     return {"profile": "c13", "env": {"default_dtype": "float32"}, "world": world, "two_asset": two, "ops": ops}
 
@@ -163,6 +168,9 @@ def _execute(program, stats, hist):
                         dd.maturity = round(kk) * op["new_dt"]
             p0_.dt = op["new_dt"]
             stats.probe("dt_changed_on_same_objects")
+        if op.get("new_maturity") is not None:
+            d.maturity = op["new_maturity"]
+            stats.probe("maturity_changed_on_same_object")
         torch.manual_seed(op["torch_seed"])
         uls = list(d.underliers())
         other = any(last_sim_by.get(id(u)) not in (None, op["target"]) for u in uls)
